@@ -24,6 +24,8 @@
    known windows:
      450 = 401/402 inside the window of finding C04-newalloc-after-completed (DESIGN 7 #13 seen from the shim)
      451 = 494 inside the window of finding C04-timeout-drops-inflight-ask
+     454 = 401 / 495 inside the window of finding C04-released-ask-bound-by-swap
+     455 = protocol / correspondence failure after the duplicate-key state of finding C04-update-after-timeout-duplicates-key
      453 = 412 inside the window of finding C04-rejected-app-sets-queue-limits *)
 From Coq Require Import List ZArith NArith Bool.
 From YK Require Import Base.Res Core.Obs Core.Proj Core.ShimMonitor Core.Announce.
@@ -84,6 +86,30 @@ Definition window_13 (pre : ostate) (st : ostep) : bool :=
       end
   | _ => false
   end.
+(* a placeholder with a swap in flight whose linked real ask is no longer a request of the application (the shim
+   released that ask while the swap was in flight: removeAsksInternal forgets the ask but leaves the placeholder's
+   release pointer). When the swap is completed - the shim confirms the placeholder (ReplaceAllocation) or the
+   placeholder's node is removed while the real half sits on another node (removeNodeAllocations) - the code follows the
+   pointer and binds and announces the released ask *)
+Definition dangling_targets (pre : ostate) : list N :=
+  flat_map (fun a => map oa_release (filter (fun p => oa_ph p && negb (oa_release p =? 0) &&
+                                                      negb (memN (oa_release p) (map oa_key (ap_requests a)))) (ap_allocs a))) (s_apps pre).
+Definition window_dangling_swap (pre : ostate) (st : ostep) : bool :=
+  match st_op st with
+  | OpRelease _ _ _ | OpNodeRemove _ =>
+      existsb (fun e => match e with ENewAlloc k _ _ _ _ => memN k (dangling_targets pre) | _ => false end) (st_events st)
+  | _ => false
+  end.
+(* after a placeholder timeout (New/Accepted branch) removeAsksInternal("") has dropped the requests of the ALLOCATED
+   placeholders too; an update the shim sends for such a still-bound key finds no request, is taken for a new ask and
+   is scheduled: the application then holds one key twice (allocation list and pending request; two nodes list it).
+   The state predicate below never holds in a healthy state (an unallocated request is never in the allocation list);
+   once it has been observed every later protocol / correspondence failure of the history is attributed to it *)
+Definition dup_key (s : ostate) : bool :=
+  existsb (fun a => existsb (fun r => negb (oa_allocated r) && memN (oa_key r) (map oa_key (ap_allocs a))) (ap_requests a)) (s_apps s).
+Definition taint_kind (c : N) : bool :=
+  (c =? 401) || (c =? 404) || (c =? 406) || (c =? 491) || (c =? 492) || (c =? 493) || (c =? 494) || (c =? 495).
+
 (* a rejected application carrying namespace quota tags was placed in an existing unmanaged queue: AddApplication
    applies the tags to the queue (SetMaxRunningApps / SetResources) before the gang checks reject the application;
    the only trace is the changed queue limits *)
@@ -100,37 +126,44 @@ Definition flag (idx kind : N) (ok : bool) : list (N * N) := if ok then [] else 
 Fixpoint run_items (m : mstate) (t : list item) : mres :=
   match t with [] => MOk m | it :: r => match mon_step m it with MOk m' => run_items m' r | MErr c => MErr c end end.
 
-Fixpoint c04_steps (base i : N) (pre : ostate) (m : option mstate) (lost0 : list N) (l : list ostep) : list (N * N) :=
+Definition classify (pre : ostate) (st : ostep) (taint : bool) (c : N) : N :=
+  if ((c =? 401) || (c =? 402)) && window_13 pre st then 450 else
+  if ((c =? 401) || (c =? 495)) && window_dangling_swap pre st then 454 else
+  if taint && taint_kind c then 455 else c.
+
+Fixpoint c04_steps (base i : N) (pre : ostate) (m : option mstate) (lost0 : list N) (taint0 : bool) (l : list ostep) : list (N * N) :=
   match l with
   | [] => []
   | st :: t =>
       let idx := base + i in
+      let post := st_obs st in
+      let taint := taint0 || dup_key post in
+      let cl := classify pre st taint in
       let here := (if rejected_no_trace pre st then [] else [(idx, if window_rejected_limits pre st then 453 else 412)]) ++
-                  flag idx 495 (announce_ok pre st) in
+                  (if announce_ok pre st then [] else [(idx, cl 495)]) in
       match m with
-      | None => here ++ c04_steps base (i + 1) (st_obs st) None lost0 t
+      | None => here ++ c04_steps base (i + 1) post None lost0 taint t
       | Some m0 =>
           match run_items m0 (trace_of_step st) with
-          | MErr c => here ++ [(idx, if ((c =? 401) || (c =? 402)) && window_13 pre st then 450 else c)] ++ c04_steps base (i + 1) (st_obs st) None lost0 t
+          | MErr c => here ++ [(idx, cl c)] ++ c04_steps base (i + 1) post None lost0 taint t
           | MOk m1 =>
-              let post := st_obs st in
               let lost := shim_out_lost post m1 in
               let newlost := filter (fun k => negb (memN k lost0)) lost in
               here ++
-              flag idx 491 (sim_allocs_bound post m1) ++
-              flag idx 492 (sim_pending_out post m1) ++
-              flag idx 493 (match filter (fun k => negb (memN k (shim_bound_lost pre m0))) (shim_bound_lost post m1) with [] => true | _ => false end) ++
+              (if sim_allocs_bound post m1 then [] else [(idx, cl 491)]) ++
+              (if sim_pending_out post m1 then [] else [(idx, cl 492)]) ++
+              (match filter (fun k => negb (memN k (shim_bound_lost pre m0))) (shim_bound_lost post m1) with [] => [] | _ => [(idx, cl 493)] end) ++
               (match newlost with
                | [] => []
-               | _ => [(idx, if window_timeout_inflight pre st newlost then 451 else 494)]
+               | _ => [(idx, if window_timeout_inflight pre st newlost then 451 else cl 494)]
                end) ++
-              c04_steps base (i + 1) post (Some m1) lost t
+              c04_steps base (i + 1) post (Some m1) lost taint t
           end
       end
   end.
 
 Definition c04_history (hi : N) (h : ohistory) : list (N * N) :=
-  c04_steps (hi * 1000) 0 (h_init h) (Some mon_init) [] (h_steps h).
+  c04_steps (hi * 1000) 0 (h_init h) (Some mon_init) [] false (h_steps h).
 
 Fixpoint c04_all (hi : N) (cs : list ohistory) : list (N * N) :=
   match cs with [] => [] | h :: t => c04_history hi h ++ c04_all (hi + 1) t end.
